@@ -1,4 +1,5 @@
 //! Model-checking harness for irlserver/srtla_send (see /verif/DESIGN.md).
+pub mod conformance;
 pub mod engine;
 pub mod evidence;
 pub mod props;
